@@ -389,6 +389,7 @@ func TestVerifC13Decode(t *testing.T) {
 	}
 
 	dValidateStream(out, r, all)
+	dMismatch(out, r, all)
 	dFaithful(t, out, r, all)
 }
 
